@@ -52,6 +52,47 @@ KF_C39_listed == TRUE
 KF_C25(ev) == FALSE
 KF_C25_Id(ev) == "none"
 
+(* ---- C33: the ABIXML reader asserts instead of rejecting a semantically broken document --------------------------------- *)
+(* Events carry: mutation (class), action (Reader.tla action), kind, fn, site (last component of fn).  Three listed classes:    *)
+(*  C33-reader-asserts        : an ABG_ASSERT / abort() in one of the reader's build_* functions or in the IR routine it calls  *)
+(*                              on a half-built type, for a well-formed document whose ids / attributes were mutated.           *)
+(*  C33-reference-cycles      : a type made to refer to itself (directly or through typedef/qualified/array types) recurses     *)
+(*                              without bound in the reader or in get_type_name / get_pretty_representation.                    *)
+(*  C33-function-type-as-object-type : a variable or parameter retargeted to a function-type: null name dereference.           *)
+C33_AssertSites == {"build_or_get_type_decl", "build_type_decl", "build_class_decl", "build_union_decl", "build_reference_type_def",
+                    "build_pointer_type_def", "build_enum_type_decl", "build_qualified_type_decl", "build_typedef_decl",
+                    "build_function_parameter", "build_array_type_def", "build_subrange_type", "build_function_decl", "build_var_decl",
+                    "build_function_type", "read_access", "get_exemplar_type", "get_generic_anonymous_internal_type_name",
+                    "hash_as_canonical_type_or_constant", "get_length", "add_corpus", "push_and_key_type_decl", "key_type_decl"}
+C33_RecursionSites == {"build_qualified_type_decl", "build_array_type_def", "build_enum_type_decl", "build_subrange_type", "build_type",
+                       "build_typedef_decl", "build_pointer_type_def", "build_reference_type_def", "build_or_get_type_decl",
+                       "get_type_name", "get_pretty_representation", "get_qualified_name", "get_name"}
+KF_C33_Id(ev) ==
+  IF ev.kind \in {"assert", "abort"} /\ ev.site \in C33_AssertSites /\ ev.action # "Truncate" THEN "C33-reader-asserts"
+  ELSE IF ev.kind = "stack-overflow" /\ ev.site \in C33_RecursionSites /\ ev.action \in {"Retarget", "DanglingRef", "DuplicateId", "Clone"}
+       THEN "C33-reference-cycles"
+  ELSE IF ev.action = "Retarget" /\ ev.site \in {"get_pretty_representation_of_declarator", "get_pretty_representation"}
+          /\ ev.kind \notin {"assert", "abort", "stack-overflow", "timeout"} THEN "C33-function-type-as-object-type"
+  ELSE "none"
+KF_C33(ev) == KF_C33_Id(ev) # "none"
+KF_C35(ev) == FALSE
+KF_C35_Id(ev) == "none"
+
+(* ---- C34 ------------------------------------------------------------------------------------------------------------------ *)
+(*  C34-dwarf-reader-asserts  : corrupted .debug_info / .debug_str contents end in an ABG_ASSERT of the DWARF reader.            *)
+(*  C34-unknown-symbol-binding: a symbol whose st_info carries a binding/type outside the known values: deliberate upstream     *)
+(*                              abort (ABG_ASSERT_NOT_REACHED in stb_to_elf_symbol_binding / stt_to_elf_symbol_type).            *)
+KF_C34_Id(ev) ==
+  IF ev.kind = "assert" /\ ev.section \in {"debug_info", "debug_str", "debug_abbrev", "debug_line", "debug_types"}
+     /\ ev.fn \in {"abigail::dwarf_reader::build_pointer_type_def", "abigail::dwarf_reader::die_qualified_type_name",
+                   "abigail::dwarf_reader::build_ir_node_from_die", "abigail::dwarf_reader::die_pretty_print_type"}
+  THEN "C34-dwarf-reader-asserts"
+  ELSE IF ev.section \in {"dynsym", "symtab"} /\ ev.kind \in {"SIG6", "abort", "assert"} /\ ev.detail_is_st_info THEN "C34-unknown-symbol-binding"
+  ELSE "none"
+KF_C34(ev) == KF_C34_Id(ev) # "none"
+KF_C37(ev) == FALSE
+KF_C37_Id(ev) == "none"
+
 (* C04: FALSE unless listed *)
 KF_C04_unescaped(ev) == FALSE
 ====================================================================================================
